@@ -72,9 +72,9 @@ def transform_vcs() -> List[core.VC]:
     r, p, q = df.uni.skolem("r"), df.uni.skolem("p"), df.uni.skolem("q")
     # well-formedness (section 4): unique ids, correlation >= -1, a correlation id occurs at most once per side
     wf = [
-        z3.ForAll(list(a) + list(b), z3.Implies(z3.And(pres(a), pres(b), idx(a) == idx(b)), a[0] == b[0])),
-        z3.ForAll(list(a), z3.Implies(pres(a), z3.And(corr(a) >= -1, idx(a) >= 0, nm(a) >= 0))),
-        z3.ForAll(list(a) + list(b), z3.Implies(z3.And(pres(a), pres(b), corr(a) == corr(b), corr(a) != -1, dev(a) == dev(b)), a[0] == b[0])),
+        z3.ForAll(list(a) + list(b), z3.Implies(z3.And(pres(a), pres(b), idx(a) == idx(b)), a[0] == b[0]), patterns=[z3.MultiPattern(idx(a), idx(b))]),
+        z3.ForAll(list(a), z3.Implies(pres(a), z3.And(corr(a) >= -1, idx(a) >= 0, nm(a) >= 0)), patterns=[corr(a)]),
+        z3.ForAll(list(a) + list(b), z3.Implies(z3.And(pres(a), pres(b), corr(a) == corr(b), corr(a) != -1, dev(a) == dev(b)), a[0] == b[0]), patterns=[z3.MultiPattern(corr(a), corr(b))]),
     ]
     hyps = path + list(ex.facts) + wf + st.axioms() + [pres(r)]
     ic = out.cols["index_correlation"].val
